@@ -104,8 +104,8 @@ def run(ctx: Any, prog: Program) -> None:
                      and any(dotted(t) == f'self.{index}' for t in (a.targets if isinstance(a, ast.Assign) else [a.target]))]
             for lp_ in [l for l in ast.walk(init) if isinstance(l, ast.For)]:
                 st_ = [a for a in ast.walk(lp_) if isinstance(a, ast.Assign) and len(a.targets) == 1 and isinstance(a.targets[0], ast.Subscript) and (dotted(a.targets[0].value) in locs_ or dotted(a.targets[0].value) == f'self.{index}')]
-                if len(st_) == 1 and isinstance(lp_.target, ast.Name):
-                    attr_forms = {f'{lp_.target.id}.filename': frozenset({SLASHED})} if isinstance(lp_.iter, ast.Call) and isinstance(lp_.iter.func, ast.Attribute) and lp_.iter.func.attr == 'infolist' else {}
+                if len(st_) == 1 and isinstance(lp_.target, (ast.Name, ast.Tuple)):
+                    attr_forms = {f'{lp_.target.id}.filename': frozenset({SLASHED})} if isinstance(lp_.target, ast.Name) and isinstance(lp_.iter, ast.Call) and isinstance(lp_.iter.func, ast.Attribute) and lp_.iter.func.attr == 'infolist' else {}
                     key_expr = st_[0].targets[0].slice
                     key_form = FormEnv(init, call_forms=call_forms, attr_forms=attr_forms).form(key_expr)
                     # what the loop leaves out: `if c: continue` in front of the store, and `if c:` around it
